@@ -1034,7 +1034,8 @@ func NewEvent(mach *Machine, machApi Api) *Event {
 
 // Mutation returns the Mutation of an Event.
 func (e *Event) Mutation() *Mutation {
-	t := e.Machine().Transition()
+	// supports events without a machine
+	t := e.Transition()
 	if t == nil {
 		return nil
 	}
@@ -1073,7 +1074,7 @@ func (e *Event) IsValid() bool {
 // Export clones only the essential data of the Event. Useful for tracing vs GC.
 func (e *Event) Export() *Event {
 	id := e.MachineId
-	if e.Machine() == nil {
+	if e.Machine() != nil {
 		id = e.Machine().Id()
 	}
 
@@ -1105,12 +1106,17 @@ func (e *Event) SwapArgs(args A) *Event {
 }
 
 func (e *Event) String() string {
+	mut := e.Mutation()
+	if mut == nil {
+		// no transition (or no machine)
+		return e.Name
+	}
 	mach := e.Machine()
 	if mach == nil {
-		return e.Mutation().String()
+		return mut.String()
 	}
 
-	return e.Mutation().StringFromIndex(mach.StateNames())
+	return mut.StringFromIndex(mach.StateNames())
 }
 
 // ///// ///// /////
